@@ -16,56 +16,64 @@
 EXTENDS Json, IOUtils, TLC, Integers, Sequences, SequencesExt, FiniteSets, FiniteSetsExt, Functions
 
 Rec == ndJsonDeserialize(IOEnv.TRACE)
-VARIABLES l, owner, nodes, blobs, edges, foreign
+VARIABLES l, owner, nodes, blobs, edges, foreign, vac
 (* owner  : function page -> module, defined on pages in use
    nodes  : sequence of <<external id, label>>, index = internal id + 1
    blobs  : function internal id -> size of the "blob" property
    edges  : function <<src, dst>> -> number of parallel relationships (every create adds one, as in GraphAbs)
    foreign: a foreign write has been seen in this scenario (later content findings name it) *)
-vars == <<l, owner, nodes, blobs, edges, foreign>>
+(* vac: the database has been vacuumed in this scenario: the file was rewritten, so pages met afterwards are adopted by
+   their first writer, and what is found from then on is reported under C28 (vacuum preserves the database) *)
+vars == <<l, owner, nodes, blobs, edges, foreign, vac>>
+P == IF vac THEN "C28" ELSE "C18"
 Emit(f) == PrintT(<<"FINDING", ToJson(f)>>)
 Empty == [x \in {} |-> 0]
 
-Init == l = 1 /\ owner = Empty /\ nodes = <<>> /\ blobs = Empty /\ edges = Empty /\ foreign = FALSE
+Init == l = 1 /\ owner = Empty /\ nodes = <<>> /\ blobs = Empty /\ edges = Empty /\ foreign = FALSE /\ vac = FALSE
 
 TReset ==
   /\ l <= Len(Rec) /\ Rec[l].ev = "reset"
-  /\ (IF Rec[l].open = "ok" THEN TRUE ELSE Emit([prop |-> "C18", at |-> l, id |-> Rec[l].id, kind |-> "open-failed", detail |-> Rec[l].open]))
-  /\ owner' = Empty /\ nodes' = <<>> /\ blobs' = Empty /\ edges' = Empty /\ foreign' = FALSE
+  /\ (IF Rec[l].open = "ok" THEN TRUE ELSE Emit([prop |-> P, at |-> l, id |-> Rec[l].id, kind |-> "open-failed", detail |-> Rec[l].open]))
+  /\ owner' = Empty /\ nodes' = <<>> /\ blobs' = Empty /\ edges' = Empty /\ foreign' = FALSE /\ vac' = FALSE
   /\ l' = l + 1
 
 (* fold of the pager events of one step: <<owner, sequence of offending events>> *)
-RECURSIVE Fold(_, _, _, _)
-Fold(evs, i, own, bad) ==
+RECURSIVE Fold(_, _, _, _, _)
+Fold(evs, i, own, bad, blind) ==
   IF i > Len(evs) THEN <<own, bad>>
   ELSE LET op == evs[i][1] p == evs[i][2] w == evs[i][3]
            has == p \in DOMAIN own
-       IN CASE op = "ensure-new" -> Fold(evs, i + 1, (p :> w) @@ own, IF has THEN Append(bad, <<"bitmap-free-but-owned", p, w, own[p]>>) ELSE bad)
-            [] op = "alloc" -> Fold(evs, i + 1, (p :> w) @@ own, IF has /\ own[p] # w THEN Append(bad, <<"allocated-twice", p, w, own[p]>>) ELSE bad)
-            [] op = "free" -> Fold(evs, i + 1, [q \in DOMAIN own \ {p} |-> own[q]],
-                                   IF has /\ own[p] = w THEN bad ELSE Append(bad, <<"foreign-free", p, w, IF has THEN own[p] ELSE "free">>))
+           (* after a vacuum the file has been rewritten: a page met for the first time belongs to whoever touches it first *)
+           adopt == blind /\ ~has
+           own1 == IF adopt THEN (p :> w) @@ own ELSE own
+           has1 == p \in DOMAIN own1
+       IN CASE op = "ensure-new" -> Fold(evs, i + 1, (p :> w) @@ own, IF has THEN Append(bad, <<"bitmap-free-but-owned", p, w, own[p]>>) ELSE bad, blind)
+            [] op = "alloc" -> Fold(evs, i + 1, (p :> w) @@ own, IF has /\ own[p] # w THEN Append(bad, <<"allocated-twice", p, w, own[p]>>) ELSE bad, blind)
+            [] op = "free" -> Fold(evs, i + 1, [q \in DOMAIN own1 \ {p} |-> own1[q]],
+                                   IF has1 /\ own1[p] = w THEN bad ELSE Append(bad, <<"foreign-free", p, w, IF has1 THEN own1[p] ELSE "free">>), blind)
             [] op \in {"write", "ensure-present"} ->
-                 Fold(evs, i + 1, own,
-                      IF has /\ own[p] = w THEN bad
+                 Fold(evs, i + 1, own1,
+                      IF has1 /\ own1[p] = w THEN bad
                       ELSE IF Len(bad) > 0 /\ bad[Len(bad)][2] = p /\ bad[Len(bad)][3] = w THEN bad     \* one report per page and module in a row
-                      ELSE Append(bad, <<IF op = "write" THEN "foreign-write" ELSE "foreign-ensure", p, w, IF has THEN own[p] ELSE "free">>))
-            [] OTHER -> Fold(evs, i + 1, own, Append(bad, <<"unknown-event", p, w, op>>))
+                      ELSE Append(bad, <<IF op = "write" THEN "foreign-write" ELSE "foreign-ensure", p, w, IF has1 THEN own1[p] ELSE "free">>), blind)
+            [] OTHER -> Fold(evs, i + 1, own, Append(bad, <<"unknown-event", p, w, op>>), blind)
 
 Range1(a, b) == IF b < a THEN <<>> ELSE [i \in 1..(b - a + 1) |-> a + i - 1]
 
 TStep ==
   /\ l <= Len(Rec) /\ Rec[l].ev = "step"
   /\ LET e == Rec[l]
-         r == Fold(e.pages, 1, owner, <<>>)
+         r == Fold(e.pages, 1, IF e.op = "vacuum" THEN Empty ELSE owner, <<>>, vac \/ e.op = "vacuum")
          bad == r[2]
          ok == e.res = "ok"
      IN /\ owner' = r[1]
+        /\ vac' = (vac \/ e.op = "vacuum")
         /\ foreign' = (foreign \/ Len(bad) > 0)
         /\ (IF Len(bad) = 0 THEN TRUE
-            ELSE Emit([prop |-> "C18", at |-> l, kind |-> bad[1][1], op |-> e.op, page |-> bad[1][2], by |-> bad[1][3], owner |-> bad[1][4],
+            ELSE Emit([prop |-> (IF vac \/ e.op = "vacuum" THEN "C28" ELSE "C18"), at |-> l, kind |-> bad[1][1], op |-> e.op, page |-> bad[1][2], by |-> bad[1][3], owner |-> bad[1][4],
                        more |-> Len(bad) - 1, others |-> SubSeq(bad, 2, IF Len(bad) > 6 THEN 6 ELSE Len(bad))]))
         /\ (IF ok THEN TRUE
-            ELSE Emit([prop |-> "C18", at |-> l, kind |-> "step-failed", op |-> e.op, detail |-> e.res, after_foreign_write |-> foreign']))
+            ELSE Emit([prop |-> (IF vac \/ e.op = "vacuum" THEN "C28" ELSE "C18"), at |-> l, kind |-> "step-failed", op |-> e.op, detail |-> e.res, after_foreign_write |-> foreign']))
         /\ nodes' = IF ok /\ e.op = "nodes" THEN nodes \o [k \in 1..e.info.n |-> <<e.info.first + k - 1, e.info.label>>] ELSE nodes
         /\ blobs' = IF ok /\ e.op = "blobs" THEN [i \in (DOMAIN blobs) \cup ToSet(e.info.set) |-> IF i \in ToSet(e.info.set) THEN e.info.size ELSE blobs[i]] ELSE blobs
         /\ edges' = IF ok /\ e.op = "edges"
@@ -76,7 +84,7 @@ TStep ==
                      ELSE edges
         (* the identities the engine handed out are the dense ones *)
         /\ (IF ~(ok /\ e.op = "nodes") \/ (e.info.first_iid = Len(nodes) /\ e.info.last_iid = Len(nodes) + e.info.n - 1) THEN TRUE
-            ELSE Emit([prop |-> "C18", at |-> l, kind |-> "content", what |-> "internal ids not dense", got |-> <<e.info.first_iid, e.info.last_iid>>,
+            ELSE Emit([prop |-> (IF vac \/ e.op = "vacuum" THEN "C28" ELSE "C18"), at |-> l, kind |-> "content", what |-> "internal ids not dense", got |-> <<e.info.first_iid, e.info.last_iid>>,
                        expected |-> <<Len(nodes), Len(nodes) + e.info.n - 1>>, after_foreign_write |-> foreign']))
   /\ l' = l + 1
 
@@ -95,23 +103,23 @@ TObs ==
                        LET q == e.lookups[k] IN
                        q.indexed /\ Len(q.hits) > 0 /\ \E h \in ToSet(q.hits) : h >= n \/ nodes[h + 1][1] # q.value \/ nodes[h + 1][2] # q.label}
      IN /\ (IF Len(e.errs) = 0 THEN TRUE
-            ELSE Emit([prop |-> "C18", at |-> l, kind |-> "read-failed", errs |-> SubSeq(e.errs, 1, IF Len(e.errs) > 5 THEN 5 ELSE Len(e.errs)),
+            ELSE Emit([prop |-> P, at |-> l, kind |-> "read-failed", errs |-> SubSeq(e.errs, 1, IF Len(e.errs) > 5 THEN 5 ELSE Len(e.errs)),
                        count |-> Len(e.errs), after_foreign_write |-> foreign]))
         /\ (IF Len(e.nodes) = n /\ wrongNodes = {} THEN TRUE
-            ELSE Emit([prop |-> "C18", at |-> l, kind |-> "content", what |-> "nodes", expected_count |-> n, got_count |-> Len(e.nodes),
+            ELSE Emit([prop |-> P, at |-> l, kind |-> "content", what |-> "nodes", expected_count |-> n, got_count |-> Len(e.nodes),
                        wrong |-> Cardinality(wrongNodes),
                        first_wrong |-> IF wrongNodes = {} THEN <<>> ELSE LET k == Min(wrongNodes) IN <<e.nodes[k], IF k <= n THEN ExpectedNode(k - 1) ELSE <<>>>>,
                        after_foreign_write |-> foreign]))
         /\ (IF gotEdges = expEdges /\ Len(e.edges) = Cardinality(gotEdges) THEN TRUE
-            ELSE Emit([prop |-> "C18", at |-> l, kind |-> "content", what |-> "relationships (direction, source, target, multiplicity)",
+            ELSE Emit([prop |-> P, at |-> l, kind |-> "content", what |-> "relationships (direction, source, target, multiplicity)",
                        missing |-> Cardinality(expEdges \ gotEdges), unexpected |-> Cardinality(gotEdges \ expEdges),
                        example |-> IF expEdges \ gotEdges # {} THEN CHOOSE y \in expEdges \ gotEdges : TRUE
                                    ELSE IF gotEdges \ expEdges # {} THEN CHOOSE y \in gotEdges \ expEdges : TRUE ELSE <<"listed twice", 0, 0, 0>>,
                        after_foreign_write |-> foreign]))
         /\ (IF badHits = {} THEN TRUE
-            ELSE Emit([prop |-> "C18", at |-> l, kind |-> "content", what |-> "index hit on a node that does not have the value",
+            ELSE Emit([prop |-> P, at |-> l, kind |-> "content", what |-> "index hit on a node that does not have the value",
                        lookup |-> e.lookups[Min(badHits)], after_foreign_write |-> foreign]))
-  /\ UNCHANGED <<owner, nodes, blobs, edges, foreign>>
+  /\ UNCHANGED <<owner, nodes, blobs, edges, foreign, vac>>
   /\ l' = l + 1
 
 (***************************************************************************)
@@ -133,17 +141,17 @@ TCrash ==
          expEdges == {<<"o", x[1], x[2], edges[x]>> : x \in DOMAIN edges} \cup {<<"i", x[1], x[2], edges[x]>> : x \in DOMAIN edges}
          edgesOk == {<<e.edges[i][1], e.edges[i][2], e.edges[i][3], e.edges[i][4]>> : i \in 1..Len(e.edges)} = expEdges /\ Len(e.edges) = Cardinality(expEdges)
      IN /\ (IF e.open = "ok" THEN TRUE
-            ELSE Emit([prop |-> "C18", at |-> l, kind |-> "crash-image-does-not-open", image |-> e.kind, site |-> e.site, io_step |-> e.io_step, detail |-> e.open]))
+            ELSE Emit([prop |-> P, at |-> l, kind |-> "crash-image-does-not-open", image |-> e.kind, site |-> e.site, io_step |-> e.io_step, detail |-> e.open]))
         /\ (IF e.open # "ok" \/ Len(e.errs) = 0 THEN TRUE
-            ELSE Emit([prop |-> "C18", at |-> l, kind |-> "crash-image-read-failed", image |-> e.kind, site |-> e.site, io_step |-> e.io_step,
+            ELSE Emit([prop |-> P, at |-> l, kind |-> "crash-image-read-failed", image |-> e.kind, site |-> e.site, io_step |-> e.io_step,
                        errs |-> SubSeq(e.errs, 1, IF Len(e.errs) > 5 THEN 5 ELSE Len(e.errs))]))
         /\ (IF e.open # "ok" \/ Len(e.errs) > 0 \/ isPre \/ isPost THEN TRUE
-            ELSE Emit([prop |-> "C18", at |-> l, kind |-> "crash-image-content", image |-> e.kind, site |-> e.site, io_step |-> e.io_step,
+            ELSE Emit([prop |-> P, at |-> l, kind |-> "crash-image-content", image |-> e.kind, site |-> e.site, io_step |-> e.io_step,
                        got_count |-> Len(e.nodes), before |-> n, after |-> n + k, after_foreign_write |-> foreign]))
         /\ (IF e.open # "ok" \/ Len(e.errs) > 0 \/ edgesOk THEN TRUE
-            ELSE Emit([prop |-> "C18", at |-> l, kind |-> "crash-image-content", image |-> e.kind, site |-> e.site, io_step |-> e.io_step,
+            ELSE Emit([prop |-> P, at |-> l, kind |-> "crash-image-content", image |-> e.kind, site |-> e.site, io_step |-> e.io_step,
                        what |-> "relationships", after_foreign_write |-> foreign]))
-  /\ UNCHANGED <<owner, nodes, blobs, edges, foreign>>
+  /\ UNCHANGED <<owner, nodes, blobs, edges, foreign, vac>>
   /\ l' = l + 1
 
 Next == TReset \/ TStep \/ TObs \/ TCrash
